@@ -46,13 +46,19 @@ def wHash (s : Bool) : Str := if s then ['1'] else ['0']
 
 /-- everything of the witness environment except `loads` and `out` -/
 def wEnv0 (out : (Str → Bool) → Str → Except Err Text) : Env Bool :=
-  { hash := wHash, md5 := id, loads := fun _ => .error .valueError, out := out,
-    appVersion := ['1'], tVersion := ['1'], tModule := ['P'] }
+  { hash := wHash, md5 := id, loads := fun _ => .error .valueError, out := out, tModule := ['P'] }
 
-def wCombosFor (mods : List Str) : List (Bool × Str) := mods.flatMap fun m => [(false, m), (true, m)]
+/-- the releases of the witness histories: application version 1 and 2 -/
+def wV1 : Vers := ⟨['1'], ['1']⟩
+def wV2 : Vers := ⟨['2'], ['1']⟩
+def wVers : List Vers := [wV1, wV2]
+
+def wCombosFor (mods : List Str) : List (Vers × Bool × Str) :=
+  wVers.flatMap fun v => mods.flatMap fun m => [(v, false, m), (v, true, m)]
 
 def wTableFor (mods : List Str) : List (Str × Json) :=
-  (wCombosFor mods).map fun sm => (' ' :: (curHeader (wEnv0 fun _ _ => .ok []) sm.1 sm.2).toJson, (curHeader (wEnv0 fun _ _ => .ok []) sm.1 sm.2).toJsonVal)
+  (wCombosFor mods).map fun c => (' ' :: (curHeader (wEnv0 fun _ _ => .ok []) c.1 c.2.1 c.2.2).toJson,
+    (curHeader (wEnv0 fun _ _ => .ok []) c.1 c.2.1 c.2.2).toJsonVal)
 
 /-- witness environment whose `json.loads` is the table of the headers of `mods` -/
 def wEnvFor (mods : List Str) (out : (Str → Bool) → Str → Except Err Text) : Env Bool := { wEnv0 out with loads := tableLoads (wTableFor mods) }
@@ -71,7 +77,7 @@ def outOwn (src : Str → Bool) (m : Str) : Except Err Text := bodyOwn m (src m)
 
 def wCfg : Cfg := ⟨[['o']], ['h'], none, ['/']⟩
 
-def wWorld : World Bool := ⟨[mB, mC], fun _ => false, fun _ => none, wCfg, 0⟩
+def wWorld : World Bool := ⟨[mB, mC], fun _ => false, fun _ => none, wCfg, 0, wV1, fun _ => none⟩
 
 /-- run, then change the return type declared in `c` -/
 def wOps : List (Op Bool) := [.run false, .edit mC true]
@@ -83,27 +89,36 @@ theorem wHashFor_inj (mods : List Str) (out : (Str → Bool) → Str → Except 
 
 theorem wHash_inj (out : (Str → Bool) → Str → Except Err Text) : HashInj (wEnv out) := wHashFor_inj _ out
 
-theorem wFor_idInj (mods : List Str) (out : (Str → Bool) → Str → Except Err Text) (ms : List Str) : IdInj (wEnvFor mods out) ms :=
-  fun _ _ _ _ _ _ h => h
+theorem wFor_idInj (mods : List Str) (out : (Str → Bool) → Str → Except Err Text) (ms : List Str) (vs : List Vers) :
+    IdInj (wEnvFor mods out) ms vs :=
+  fun _ _ _ _ _ _ _ _ _ _ h => h
 
-theorem w_idInj (out : (Str → Bool) → Str → Except Err Text) (mods : List Str) : IdInj (wEnv out) mods := wFor_idInj _ out mods
+theorem w_idInj (out : (Str → Bool) → Str → Except Err Text) (mods : List Str) (vs : List Vers) : IdInj (wEnv out) mods vs :=
+  wFor_idInj _ out mods vs
 
 theorem wFor_loadsSound (mods : List Str) (out : (Str → Bool) → Str → Except Err Text) (hn : ((wTableFor mods).map (·.1)).Nodup) :
-    LoadsSound (wEnvFor mods out) mods := by
-  intro s m hm
-  have hmem : (s, m) ∈ wCombosFor mods := by
+    LoadsSound (wEnvFor mods out) mods wVers := by
+  intro v hv s m hm
+  have hmem : (v, s, m) ∈ wCombosFor mods := by
     unfold wCombosFor
     rw [List.mem_flatMap]
+    refine ⟨v, hv, ?_⟩
+    rw [List.mem_flatMap]
     exact ⟨m, hm, by cases s <;> simp⟩
-  have : (' ' :: (curHeader (wEnvFor mods out) s m).toJson, (curHeader (wEnvFor mods out) s m).toJsonVal) ∈ wTableFor mods :=
-    List.mem_map.2 ⟨(s, m), hmem, rfl⟩
+  have : (' ' :: (curHeader (wEnvFor mods out) v s m).toJson, (curHeader (wEnvFor mods out) v s m).toJsonVal) ∈ wTableFor mods :=
+    List.mem_map.2 ⟨(v, s, m), hmem, rfl⟩
   show tableLoads (wTableFor mods) _ = _
   unfold tableLoads
   rw [lookup_of_mem_nodup (wTableFor mods) _ _ hn this]
 
+theorem wVers_nonEmpty : VersNonEmpty wVers := by
+  intro v hv
+  simp only [wVers, List.mem_cons, List.not_mem_nil, or_false] at hv
+  rcases hv with rfl | rfl <;> decide
+
 theorem wTable_nodup : (wTable.map (·.1)).Nodup := by decide +kernel
 
-theorem w_loadsSound (out : (Str → Bool) → Str → Except Err Text) : LoadsSound (wEnv out) [mB, mC] :=
+theorem w_loadsSound (out : (Str → Bool) → Str → Except Err Text) : LoadsSound (wEnv out) [mB, mC] wVers :=
   wFor_loadsSound [mB, mC] out wTable_nodup
 
 theorem w_noOverlap : NoOverlap wCfg [mB, mC] := by decide +kernel
@@ -112,6 +127,40 @@ theorem w_dirsOK : DirsOK wWorld wOps := by
   intro ds h
   simp [wOps] at h
 
+theorem w_versOK : VersOK wVers wWorld wOps := by
+  refine ⟨by simp [wVers, wWorld], ?_⟩
+  intro v h
+  simp [wOps] at h
+
+/-- run, then a release with application version 2 -/
+def wOpsVer : List (Op Bool) := [.run false, .setVer wV2]
+
+/-- `b` imports `c`: the body of `b` can depend on both sources, the body of `c` on its own -/
+def wDeps (m : Str) : List Str := if m = mB then [mB, mC] else [m]
+
+theorem w_outDeps : OutDeps (wEnv outDep) wDeps := by
+  intro src src' m h
+  show outDep src m = outDep src' m
+  unfold outDep
+  by_cases hm : m = mB
+  · subst hm
+    have := h mC (by decide)
+    simp [this]
+  · have := h m (by simp [wDeps, hm])
+    simp [hm, this]
+
+theorem w_depsSelf (m : Str) : m ∈ wDeps m := by
+  unfold wDeps
+  split
+  · rename_i h; simp [h]
+  · simp
+
+/-! ### module lists for `module_meta_factory` -/
+
+def py : Str := ['p', 'y']
+def mpShapeUtils : ModPath := ⟨['s', 'h', 'a', 'p', 'e', '_', 'u', 't', 'i', 'l', 's'], py⟩
+def mpShape : ModPath := ⟨['s', 'h', 'a', 'p', 'e'], py⟩
+
 /-! ### a colliding configuration: prefix rule `app/:out` + fallback `out`, modules `app.x` and `x` -/
 
 def cCfg : Cfg := ⟨[['a', 'p', 'p', '/', ':', 'o', 'u', 't'], ['o', 'u', 't']], ['c', 'p', 'p', ':', 'h'], none, ['/', 'w']⟩
@@ -119,7 +168,7 @@ def cM1 : Str := ['a', 'p', 'p', '.', 'x']
 def cM2 : Str := ['x']
 
 /-- two modules, own-source-only outputs, under the colliding configuration -/
-def cWorld : World Bool := ⟨[cM1, cM2], fun _ => false, fun _ => none, cCfg, 0⟩
+def cWorld : World Bool := ⟨[cM1, cM2], fun _ => false, fun _ => none, cCfg, 0, wV1, fun _ => none⟩
 
 theorem cTable_nodup : ((wTableFor [cM1, cM2]).map (·.1)).Nodup := by decide +kernel
 
